@@ -35,9 +35,9 @@ T = {
          "compile.go's construction of the predicate dependency is checked by G19 on the source and, behaviourally, only on the regenerated corpora (a generated family of shapes: fan-in from one provider, repeated parameter types, predicates with own/shared inputs, reversed listing)."),
  "C12": ("Ownership: loop-owned fields touched only by the loop goroutine, Scheduler.err read only after the finish receive, Enqueue touches only the new object and the channel, ScheduledJob sealed; generated shared variables single-writer with every reader ordered after the writer by Dependencies or Wait; ran is atomic.",
          "Races inside user functions are out of scope; the Go memory model's channel edges are the trusted base."),
- "C13": ("Every type handed to a type printer is first checked for nameability where the generated code is placed and what the check finds is returned before the output is written (G33); every template variant parses and type-checks under adversarial import aliases; every template field path exists; no output write before re-parse and format succeeded; compile errors abort generation; constant accessors with panicking preconditions are guarded; errors reach the exit status; no directive call is skipped by the file walker (nested directives are diagnosed: finding F10, repaired); package names handed to the templates are looked up in the directive's scope (finding F11, repaired); no name of the user's program that the generated code spells (a type, a package, a predeclared identifier) is captured by a declaration in whose scope it is spelled - the generator's own code, evaluated on directives with such names, ends in a diagnostic (T6; findings F15, F16, repaired); every regenerated corpus package type-checks and holds no directive call.",
+ "C13": ("Every type handed to a type printer is first checked for nameability where the generated code is placed and what the check finds is returned before the output is written (G33); every template variant parses and type-checks under adversarial import aliases; every template field path exists; no output write before re-parse and format succeeded; compile errors abort generation; constant accessors with panicking preconditions are guarded; errors reach the exit status; no directive call is skipped by the file walker (nested directives are diagnosed: finding F10, repaired; a directive written through a dot import is diagnosed: finding F17, repaired - G39); package names handed to the templates are looked up in the directive's scope (finding F11, repaired); no name of the user's program that the generated code spells (a type, a package, a predeclared identifier) is captured by a declaration in whose scope it is spelled - the generator's own code, evaluated on directives with such names, ends in a diagnostic (T6; findings F15, F16, repaired); every regenerated corpus package type-checks and holds no directive call.",
          "Printing of arbitrary user types is covered on the corpus programs only (DESIGN §5 C13)."),
- "C14": ("All validators run on every path before scheduling/generation and any diagnostic aborts; duplicate-provider results are tested; diagnostics are positioned; Slice/Map assignability is tested in the direction of the generated call; the cycle search keeps the memo discipline of a sound memoised DFS (post-order memo, or path test first under the memo's key); the generator's synthetic sentinel types (Invoke / Predicate families) are structurally disjoint and numbered apart; the validators' memo keys are total over the nodes searched; user types are classified by their underlying type (named map/function/pointer types were refused on the pinned tree: finding F9, repaired); every flow of the regenerated corpora (well-formed by construction) is accepted.",
+ "C14": ("All validators run on every path before scheduling/generation and any diagnostic aborts; duplicate-provider results are tested; diagnostics are positioned; Slice/Map assignability is tested in the direction of the generated call; the cycle search keeps the memo discipline of a sound memoised DFS (post-order memo, or path test first under the memo's key); the generator's synthetic sentinel types (Invoke / Predicate families) are structurally disjoint and numbered apart; the validators' memo keys are total over the nodes searched; user types are classified by their underlying type (named map/function/pointer types were refused on the pinned tree: finding F9, repaired); every flow of the regenerated corpora (well-formed by construction) is accepted, and every program of the reject corpus (ill-formed in one way each, or a spelling cff cannot expand) is refused with a positioned diagnostic and no output (V25).",
          "Completeness of the BFS (every missing provider / unused input reported) and acceptance of every well-formed flow beyond these premises is NOT decided: a property of graph algorithms over all graphs."),
  "C15": ("Every ast.Expr-typed template value is printed through the hoisting printer (raw printer only in the prologue); the printer records before naming; prologue sorted by position and written before the staged body.",
          "Evaluation order among the hoisted definitions relies on Go's statement order; user expressions that are the literal nil or synthetic (auto-instrument names) are printed in place by design."),
